@@ -26,6 +26,61 @@ EXPLANATION = ('Structural necessary conditions of a well-formed Paje trace.  R1
                'states pushed from a start-like signal are popped from the matching completion-like signal.')
 
 
+def handles(ctx, P, A):
+    """R6: Container::get_state/get_variable/get_link return the Type object shared by every container of that container type and record the calling container *in it*
+    (set_calling_container): the handle means "this type, for that container" only until the next get_* of the same name."""
+    ctx.rule('R6', 'a type handle kept in a variable (x = container->get_state/get_variable/get_link(name)) is used before any other get_* with the same name is executed: the '
+             'calling container is stored in the shared Type object, so a later lookup re-binds every handle of that name', 3)
+    GETS = (NS + 'Container::get_state', NS + 'Container::get_variable', NS + 'Container::get_link')
+
+    def strip(t):
+        while t[0] in ('cast', 'conv'):
+            t = t[2]
+        return t
+    nh = 0
+    for f in sorted(P.fns.values(), key=lambda f_: f_['key']):
+        if not f.get('blocks'):
+            continue
+        v = A.view(f)
+        hs = [e for eid in range(len(f['elems'])) for e in v.events_of(eid) if e.kind == 'assign' and e.eid == eid and strip(e.lhs)[0] == 'var' and strip(e.rhs)[0] == 'call' and strip(e.rhs)[1] in GETS]
+        if not hs:
+            continue
+        bad = []
+
+        def tr(st, e, bad=bad):
+            # st: sorted tuple of (handle var, name term, valid)   (a tuple: abstract_run takes a returned set for a set of states)
+            if e.kind == 'assign' and strip(e.lhs)[0] == 'var' and strip(e.rhs)[0] == 'call' and strip(e.rhs)[1] in GETS:
+                nm = strip(e.rhs)[3][0] if strip(e.rhs)[3] else None
+                return tuple(sorted([x for x in st if x[0] != strip(e.lhs)] + [(strip(e.lhs), nm, True)], key=repr))
+            if e.kind == 'call' and e.q in GETS:
+                nm = e.args[0] if e.args else None
+
+                def lit(t):
+                    for x in ex.subterms(t) if t is not None else ():
+                        if x[0] == 'str':
+                            return x[1]
+                    return None
+                # the lookup that defines a handle is seen first as a call: it invalidates the *other* handles of that name (any name when one is not a literal)
+                return tuple(sorted([(h, n, ok and lit(n) is not None and lit(nm) is not None and lit(n) != lit(nm)) for h, n, ok in st], key=repr))
+            if e.kind == 'call' and e.obj is not None:
+                for h, n, ok in st:
+                    if strip(e.obj) == h and not ok:
+                        bad.append((e.line, h[2], e.q.rsplit('::', 1)[-1]))
+            return st
+        abstract_run(A, f, (), tr)
+        for h in hs:
+            nh += 1
+        short = f['q'].split('::<lambda')[0].replace(NS, '') + (' (callback at line %s)' % f['line'] if '<lambda' in f['q'] else '')
+        if bad:
+            line, hv, meth = sorted(set(bad))[0]
+            ctx.violation('R6', '%s: type handles are used before being re-bound' % short, where(f, line),
+                          '%s() is called on `%s` after another get_* of the same name ran: the event goes to the container of the later lookup' % (meth, hv),
+                          key='R6|%s|stale handle %s' % (f['q'].split('::<lambda')[0].rsplit('::', 1)[-1], hv))
+        else:
+            ctx.holds('R6', '%s: %d handle(s) used before any re-binding lookup' % (short, len(hs)), where(f), '')
+    ctx.require(nh >= 3, 'R6', 'only %d stored type handles found' % nh)
+
+
 def run(ctx):
     P = ctx.load(UNITS)
     A = ctx.analyzer
@@ -78,6 +133,7 @@ def run(ctx):
     ordering(ctx, P, A)
     lifetime(ctx, P, A)
     signals(ctx, P, A, lam)
+    handles(ctx, P, A)
     ctx.assume('uniqueness of link keys, the Paje header, cancelled activities (no completion signal) and user-supplied dates of the public TRACE_* API are not decided; the vm tracing '
                'option is outside the options the property quantifies over (and aborts at platform load: on_vm_creation is run for every host)')
     return EXPLANATION
